@@ -58,3 +58,10 @@ package xstar
 //@ func (*socket).OpenContext
 //@   modifies none
 //@   ensures isnil(result0) && result1 == protocol.ErrProtoOp
+// ---- generated deadline contracts (tools/gen_deadline_contracts.py) ----
+//@ func (*socket).RecvMsg
+//@   before select#1 assert s.recvExpire > 0 ==> timer_d(tq) == s.recvExpire
+//@   before select#1 assert s.recvExpire <= 0 ==> tq == nilQ
+//@   ensures sel("select#1") == 1 ==> result0 == nil && result1 == protocol.ErrRecvTimeout
+//@
+// ---- end generated deadline contracts ----
